@@ -658,16 +658,16 @@ func TestVerifC36(t *testing.T) {
 
 	for i := 0; i < n; i++ {
 		g := &vC36Gen{r: r}
-		// profile: which servers exist. 0: everything, 1: random subset, 2: paths only, 3: one server only
-		profile := r.Intn(4)
+		// profile: which servers exist. 0: everything, 1-2: random subset, 3: paths only, 4: one server only
+		profile := r.Intn(5)
 		only := 2 + r.Intn(len(vC36Kinds)-2)
 		has := func(idx int) bool {
 			switch profile {
 			case 0:
 				return true
-			case 1:
+			case 1, 2:
 				return r.Chance(1, 2)
-			case 2:
+			case 3:
 				return false
 			default:
 				return idx == only
@@ -681,7 +681,7 @@ func TestVerifC36(t *testing.T) {
 		// paths and forward destinations
 		pm := &vC36PM{list: &defs.APIPathList{}, listErr: fail(), forwards: map[string]*defs.APIForwardDestList{}}
 		np := g.count(3)
-		if profile == 3 {
+		if profile == 4 {
 			np = r.Intn(2)
 		}
 		paths, pathEnts := vC36Make[defs.APIPath](g, np)
@@ -816,7 +816,20 @@ func TestVerifC36(t *testing.T) {
 		qclass := "no-query"
 		switch r.Intn(10) {
 		case 0, 1, 2:
-		case 3, 4: // type only
+		case 4: // the own filter of (almost) every kind at once: every section reduced to one entity
+			qclass = "all-filters"
+			for ki := range vC36Kinds {
+				k := &vC36Kinds[ki]
+				if l := listings[k.typ]; len(l.ents) == 0 || r.Chance(1, 6) {
+					continue
+				}
+				for _, f := range k.filters {
+					if _, set := q[f[0]]; !set {
+						setQ(f[0], filterFor(k, f))
+					}
+				}
+			}
+		case 3: // type only
 			qclass = "type"
 			switch r.Intn(8) {
 			case 0:
